@@ -13,7 +13,7 @@
    very operation, and never link the caller's objects with the library's.  These are predicates
    on arbitrary functions, not on the enumeration used by the harness. *)
 From SC Require Import Base.Prelude Alias.Owned Alias.OwnedProofs Alias.LayerProofs Alias.TraitProofs
-  Alias.Nested Alias.NestedProofs Alias.C07Judge Alias.C07JudgeProofs Alias.Monitor Alias.MonitorProofs
+  Alias.Nested Alias.NestedProofs Alias.Writable Alias.WritableProofs Alias.C07Judge Alias.C07JudgeProofs Alias.Monitor Alias.MonitorProofs
   Alias.Sites Gen.AliasSites Alias.SitesProofs.
 
 (* Every message published at any point of any history - stored values, results, event old and
@@ -251,6 +251,85 @@ Theorem C07_metadata_slice_clone_refuted :
   forallb cop_guard w_metadata_slice_clone = true /\ model_ok false w_metadata_slice_clone = false.
 Proof. exact w_metadata_slice_clone_fails. Qed.
 Print Assumptions C07_metadata_slice_clone_refuted.
+
+(* ---- resources constructed with writable fields, nested update masks, reset masks ---- *)
+
+(* The merge step of a write is an arbitrary heap function [mf] in [OWriteF]; the hypothesis on it ([wb_merge],
+   part of [op_ok]) is semantic, like [wb_before]: given the destination the write owns and the caller's message
+   it follows the discipline.  C07_published_frozen, C07_caller_message_not_retained and C07_inv_preserved above
+   hold for histories containing such writes.  The WHOLE FieldUpdater.Merge of pkg/masks/update.go - writable
+   fields of any nesting filtered out of the caller's message in place and pruned from the destination, update
+   masks of any nesting with pruneEmpty, reset masks - satisfies it, for all masks, messages and fuel. *)
+Theorem C07_writable_merge_well_behaved : forall n w um rs, wb_merge (upd_merge_w n w um rs).
+Proof. exact upd_merge_w_wb. Qed.
+Print Assumptions C07_writable_merge_well_behaved.
+
+(* fmutils Prune and pruneEmpty with ANY nested mask, in place on an object the operation owns: only objects
+   of that owner owned by the operation are written, objects of the other owner that existed are untouched. *)
+Theorem C07_nested_prune_in_place_good : forall lo o n s t m, heap_ok lo s -> own lo (nxt s) o t ->
+  good lo s (prune_nested n s t m) /\
+  forall u, fst u <> o -> snd u < nxt s -> lookup (hp (prune_nested n s t m)) u = lookup (hp s) u.
+Proof. exact prune_nested_goodx. Qed.
+Print Assumptions C07_nested_prune_in_place_good.
+Theorem C07_prune_empty_good : forall lo o n s dst src m, heap_ok lo s -> own lo (nxt s) o dst ->
+  good lo s (prune_empty n s dst src m) /\
+  forall u, fst u <> o -> snd u < nxt s -> lookup (hp (prune_empty n s dst src m)) u = lookup (hp s) u.
+Proof. exact prune_empty_goodx. Qed.
+Print Assumptions C07_prune_empty_good.
+
+(* After ANY history followed by a write with ANY writable fields, update mask and reset mask: no object
+   reachable from the store (or from any published library message - the result of the write, its events)
+   is reachable from a caller-owned message, in particular from the argument of the write.  Whatever the
+   caller does to its message afterwards is an [OMutArg] continuation covered by C07_published_frozen. *)
+Theorem C07_writable_write_isolated : forall n ops st id arg vis w um rs m ib ia,
+  inv st -> Forall op_ok ops -> arg_wf arg = true -> wb_before ib -> wb_after ia ->
+  let st' := run n st (ops ++ [OWriteF id arg vis (upd_merge_w n w um rs) m ib ia]) in
+  forall r a u, (In r (map snd (store st')) \/ (In r (snaps st') /\ fst r = Lib)) -> fst a = Caller ->
+    reach (hp (hs st')) r u -> reach (hp (hs st')) a u -> False.
+Proof.
+  intros n ops st id arg vis w um rs m ib ia Hi Hops Hwf Hib Hia. apply caller_message_not_retained; auto.
+  apply Forall_app. split; auto. constructor; [|constructor].
+  split; [exact Hwf|]. split; [apply upd_merge_w_wb|]. split; [exact Hib | exact Hia].
+Qed.
+Print Assumptions C07_writable_write_isolated.
+
+(* Seeded change C07-r4-4 (without update mask, writable paths that are all whole top-level fields are
+   replaced BY REFERENCE: dstPr.Set(fd, srcPr.Get(fd))): Set; Get; the caller rewrites its message - the
+   result of Set and of Get (snapshots 1, 2) change with it; the stored value reaches a caller object. *)
+Theorem C07_writable_share_refuted :
+  forallb cop_guard (w_writable true) = true /\ model_ok false (w_writable true) = false /\
+  model_trace (init_state false) (w_writable true) = [mkO 2 [] false false; mkO 3 [] false false; mkO 3 [0; 1; 2] false false].
+Proof. exact w_writable_share_fails. Qed.
+Print Assumptions C07_writable_share_refuted.
+Example C07_writable_share_reaches_caller_object :
+  let st := run fuel (init_state false) (map cop_op (firstn 1 (w_writable true))) in
+  match fget 0 (store st) with
+  | Some t => match sub_of (hs st) t 19 with Some u => owner_eqb (fst u) Caller | None => false end
+  | None => false
+  end = true.
+Proof. exact w_writable_share_reaches. Qed.
+(* non-vacuity: the same history with the code as it is, and a history with a writable path three levels
+   deep, an update mask below it, a reset mask and an interceptor, are inside the proved fragment and pass;
+   the second one stores exactly the expected value *)
+Example C07_writable_nonvacuous :
+  forallb cop_proved (w_writable false) = true /\ model_ok false (w_writable false) = true /\
+  forallb cop_proved w_wr_nested = true /\ model_ok false w_wr_nested = true.
+Proof. exact w_writable_ok. Qed.
+
+(* A trait model that writes one of its OWN stored messages to another of its resources (electricpb
+   changeActiveMode: the mode held by the modes collection is the argument of activeMode.Set): with the write
+   given proto.Clone of the stored message (repo 6705ac9) the operation is a well-behaved model-level operation
+   for every writable-field set, update mask and reset mask of the other resource - histories containing it are
+   inside C07_published_frozen.  Before the repair the writable filter ran in place on the stored message. *)
+Theorem C07_write_of_stored_message_well_behaved : forall n k w um rs, wb_read (r_write_stored n k w um rs).
+Proof. exact wb_read_write_stored. Qed.
+Print Assumptions C07_write_of_stored_message_well_behaved.
+Theorem C07_write_of_stored_message_v0_refuted : changed_last (w_write_stored true) = [1; 2].
+Proof. exact w_write_stored_v0_fails. Qed.
+Print Assumptions C07_write_of_stored_message_v0_refuted.
+Example C07_write_of_stored_message_now_ok :
+  changed_last (w_write_stored false) = [] /\ zlen (snaps (run fuel (init_state true) (w_write_stored false))) = 4.
+Proof. exact w_write_stored_ok. Qed.
 
 (* ---- the snapshot monitor (harness/c07: deep copy at crossing time, re-comparison after every
    later operation) is sound and complete with respect to the tagged model ---- *)
